@@ -17,7 +17,9 @@ RULE = ("every ordered pair (u,v) of units of every quantity type of the three s
         "UnitDatabase.Convert, on seeded values (0, +-1, a magnitude in [1e-12,1e12], the pre-image of base 0 "
         "of affine units and its float neighbours, ints; 20% of them through another entry point: inside a "
         "one-element list / tuple / ndarray, the exponent-list form [(u,1)] -> [(v,1)], Scalar.GetValue, "
-        "Quantity.ConvertScalarValue); "
+        "Quantity.ConvertScalarValue, Array / FixedArray .GetValues holding a list, tuple, ndarray, list of tuples or "
+        "tuple of tuples); plus, always, every (offset unit x smallest-step / largest-step / base / next offset unit) "
+        "pair of every type through EVERY entry point on amounts of the size of the type's offsets; "
         "distinct = distinct (db, type, u, v, x); "
         "non-trivial = u != v and the conversion succeeded")
 EXHAUSTIVE = {"quick": False, "thorough": False}
@@ -55,6 +57,10 @@ def _case(kind, cq, u, v, w, x, box="num"):
                 **{"from": str(sym(u))})
 
 
+ARRAY_BOXES = ("arr_list", "arr_tuple", "arr_nd", "arr_tuples", "arr_ttuples", "fixed_list", "fixed_tuples")
+ALL_BOXES = ("num", "list", "tuple", "nd", "explist", "scalar", "quantity") + ARRAY_BOXES
+
+
 def _convert(db, box, cq, u, v, x):
     """UnitDatabase.Convert on the number itself or on a one-element list / tuple / ndarray holding it (the
     container branches of Convert must agree with the float branch: same closures)"""
@@ -76,6 +82,36 @@ def _convert(db, box, cq, u, v, x):
             if box == "scalar":
                 return Scalar(x, u, cat).GetValue(v)
             return ObtainQuantity(u, cat).ConvertScalarValue(float(x), v)
+        finally:
+            UnitDatabase.PopSingleton()
+    if box in ARRAY_BOXES:
+        # the container objects: Array / FixedArray holding the number in a list, a tuple, an ndarray, a list of
+        # tuples or a tuple of tuples (Array.GetAbstractValue has its own branch for points), read with GetValues(v)
+        import numpy
+        from barril.units import Array, FixedArray
+        from barril.units.unit_database import UnitDatabase
+
+        cat = cq if cq in db.categories_to_quantity_types else db.GetDefaultCategory(u)
+        if cat is None or cat not in db.categories_to_quantity_types:
+            return db.Convert(cq, u, v, x)  # a database without categories has no value objects
+        UnitDatabase.PushSingleton(db)
+        try:
+            if box == "fixed_list":
+                r = FixedArray(2, cat, [x, x], u).GetValues(v)
+                if len(r) != 2 or r[0] != r[1]:
+                    raise ValueError("FixedArray.GetValues changed the shape / treats equal items differently")
+                return r[0] if isinstance(r[0], int) else float(r[0])
+            if box in ("arr_tuples", "arr_ttuples", "fixed_tuples"):
+                pts = [(x,), (x, x)] if box != "arr_ttuples" else ((x,), (x, x))
+                r = (FixedArray(2, cat, pts, u) if box == "fixed_tuples" else Array(pts, u, cat)).GetValues(v)
+                if len(r) != 2 or len(r[0]) != 1 or len(r[1]) != 2 or not (r[0][0] == r[1][0] == r[1][1]):
+                    raise ValueError("list of tuples: shape changed / equal coordinates converted differently")
+                return r[0][0] if isinstance(r[0][0], int) else float(r[0][0])
+            held = [x] if box == "arr_list" else ((x,) if box == "arr_tuple" else numpy.array([float(x)]))
+            r = Array(held, u, cat).GetValues(v)
+            if len(r) != 1:
+                raise ValueError("container of length %d returned for length 1" % len(r))
+            return r[0] if isinstance(r[0], int) else float(r[0])
         finally:
             UnitDatabase.PopSingleton()
     if box == "list":
@@ -110,13 +146,66 @@ def _pairs(ctx, nvals, salt):
                         cq = rng.choice(cats) if (cats and rng.random() < 0.3) else qt
                         if cq not in db.categories_to_quantity_types and cq not in db.quantity_types:
                             cq = qt
-                        box = "num" if rng.random() < 0.8 else rng.choice(["list", "tuple", "nd", "explist", "scalar", "quantity"])
+                        box = "num" if rng.random() < 0.8 else rng.choice(ALL_BOXES[1:])
                         yield _case(kind, cq, u, v, w, x, box)
+
+
+def _shape_pairs(ctx, kind, qt):
+    """by the SHAPE of the formulas in the regenerated table: every unit with an offset paired (both directions) with
+    the smallest-step unit, the largest-step unit, the base unit and the next unit with an offset of its type"""
+    db = ctx.dbs[kind]
+    here = [i.unit for i in db.quantity_types[qt]]
+    offs, steps = [], {}
+    for r in ctx.data[kind]["units"]:
+        if r["qtype"] != qt or r["sym"] not in here or not r.get("ok", True):
+            continue
+        p, q, rr, s_ = r["tobase"]
+        if p != 0 or r["frombase"][0] != 0:
+            offs.append(r["sym"])
+        elif s_ == 0 and rr != 0 and q != 0:
+            steps[r["sym"]] = abs(q / rr)
+    offs.sort()
+    names = sorted(steps)
+    small = min(names, key=lambda n: (steps[n], n)) if names else None
+    large = max(names, key=lambda n: (steps[n], n)) if names else None
+    pairs = []
+    for k, o in enumerate(offs):
+        for w in (small, large, here[0], offs[(k + 1) % len(offs)]):
+            if w is not None and w != o and (w, o) not in pairs:
+                pairs += [(w, o), (o, w)]
+    top = max([abs(float(r["tobase"][0] / r["tobase"][2])) for r in ctx.data[kind]["units"]
+               if r["qtype"] == qt and r["tobase"][2] != 0 and r["tobase"][0] != 0] + [1.0])
+    return pairs, steps, top
+
+
+def _shape_cases(ctx, salt, nvals):
+    """every entry point (float, list, tuple, ndarray, exponent list, Scalar, Quantity, Array / FixedArray holding a
+    list, tuple, ndarray, list of tuples, tuple of tuples) on every (offset unit x smallest/largest-step unit) pair,
+    on amounts of the size of the type's offsets (1e17 pPa = 1 bar): a route that loses the amount next to the
+    target's offset is exact on small numbers and wrong on these"""
+    rng = ctx.fresh_rng("C01shape" + salt)
+    n = 0
+    for kind in KINDS:
+        db = ctx.dbs[kind]
+        for qt in db.quantity_types:
+            pairs, steps, top = _shape_pairs(ctx, kind, qt)
+            units = [i.unit for i in db.quantity_types[qt]]
+            for (u, v) in pairs:
+                n += 1
+                step = float(steps.get(u, 1.0)) or 1.0
+                for box in ALL_BOXES:
+                    for _k in range(nvals):
+                        x = top * 10.0 ** rng.choice((-3, -1, 0, 0, 1, 2)) * rng.uniform(1.0, 9.9) * rng.choice((1, 1, -1)) / step
+                        if not (math.isfinite(x) and abs(x) < 1e300):
+                            x = 1.0
+                        yield _case(kind, qt, u, v, rng.choice(units), x, box)
+    ctx.notes["unit_shape_pairs_every_entry_point"] = n
 
 
 def cases(ctx):
     nv = dict(posc=2, nocat=1, simple=6) if ctx.tier == "quick" else dict(posc=8, nocat=4, simple=9)
     yield from _pairs(ctx, nv, "corr")
+    yield from _shape_cases(ctx, "corr", 1 if ctx.tier == "quick" else 4)
     # a malformed stream: cross-type and unknown units must be rejected by both sides
     rng = ctx.fresh_rng("C01bad")
     db = ctx.dbs["posc"]
@@ -237,4 +326,5 @@ def table_candidates(ctx):
 
 def search(ctx):
     nv = dict(posc=3, nocat=1, simple=9) if ctx.tier == "quick" else dict(posc=10, nocat=3, simple=9)
+    yield from _shape_cases(ctx, "search", 2)
     yield from _pairs(ctx, nv, "search")
